@@ -179,6 +179,8 @@ func TestGotransFixtures(t *testing.T) {
 		for _, xs := range [][]int{nil, {1}, {-5, 3, 200, 4}, {7, 0, 7, -1, 2}} {
 			xs := xs
 			add("RangeSum", czs(xs)+" "+cz(int64(x)), func() string { return cz(int64(gtfix.RangeSum(xs, x))) })
+			add("IndexWalk", czs(xs)+" "+cz(int64(x)), func() string { return cz(int64(gtfix.IndexWalk(xs, x))) })
+			add("IndexWalkRet", czs(xs)+" "+cz(int64(x)), func() string { return cz(int64(gtfix.IndexWalkRet(xs, x))) })
 		}
 		add("Script", "(@nil (list (bstr * Z))) "+cz(int64(x))+" "+cs("k"), func() string {
 			st := gtfix.NewStack(x)
